@@ -93,6 +93,7 @@ func (f *FileOutputHandler) Write(
 					Hash:      fileHash,
 					SizeBytes: fileInfo.Size(),
 				},
+				IsExecutable: fileInfo.Mode()&0111 != 0,
 			},
 		},
 	}, nil
@@ -148,6 +149,16 @@ func (f *FileOutputHandler) Load(
 
 	if progress != nil {
 		progress.Complete()
+	}
+
+	// Restore the executable permission the file had when it was cached
+	mode := os.FileMode(0644)
+	if output.GetFile().GetIsExecutable() {
+		mode = 0755
+	}
+	if err := outputFile.Chmod(mode); err != nil {
+		outputFile.Close()
+		return err
 	}
 
 	if err := outputFile.Close(); err != nil {
